@@ -1,4 +1,7 @@
+#[cfg(not(orx_concurrent_iter_verif))]
 use std::sync::atomic::{AtomicUsize, Ordering};
+#[cfg(orx_concurrent_iter_verif)]
+use {crate::verif_hooks::AtomicUsize, std::sync::atomic::Ordering};
 
 /// An atomic counter, simply a wrapper around `AtomicUsize` with utility methods useful for atomic iterators.
 #[derive(Debug)]
